@@ -3,6 +3,52 @@
 use super::*;
 use crate::verif_common::*;
 
+macro_rules! range_harness {
+    ($name:ident, $with_upper:expr, $step:expr) => {
+        #[kani::proof]
+        #[kani::unwind(4)]
+        #[kani::stub(alloc::fmt::format, crate::verif_common::format_stub)]
+        fn $name() {
+            let lower: isize = kani::any();
+            let upper: Option<isize> = if $with_upper { Some(kani::any()) } else { None };
+            let step: Option<isize> = $step;
+            let r = builtins::range(lower, upper, step);
+            // exact number of elements Python's range() has, in i128
+            let (lo, hi) = match upper {
+                Some(u) => (lower as i128, u as i128),
+                None => (0, lower as i128),
+            };
+            let st = step.unwrap_or(1) as i128;
+            let count: i128 = if st == 0 {
+                -1
+            } else if st > 0 {
+                if lo < hi { (hi - lo + st - 1) / st } else { 0 }
+            } else if lo > hi {
+                (lo - hi + (-st) - 1) / (-st)
+            } else {
+                0
+            };
+            // no panic for any argument; an error exactly for a zero step or more than 100000 elements
+            assert!(r.is_ok() == (count >= 0 && count <= 100000));
+            kani::cover!(count != 0);
+            kani::cover!(lower < 0);
+            core::mem::forget(r);
+        }
+    };
+}
+
+// @verif-block props=C01 tier=quick cap=900 group=core doc=range(lower[,upper[,step]])_for_ANY_isize_bounds_and_the_listed_step_(omitted,_0,_-1,_isize::MIN,_...):_never_panics_or_overflows,_fails_exactly_for_a_zero_step_or_more_than_100000_elements_(element_count_computed_exactly_in_i128)
+range_harness!(c01_range_lower, false, None);
+range_harness!(c01_range_lower_upper, true, None);
+range_harness!(c01_range_step_zero, true, Some(0));
+range_harness!(c01_range_step_m1, true, Some(-1));
+range_harness!(c01_range_step_min, true, Some(isize::MIN));
+range_harness!(c01_range_step_m3, true, Some(-3)); // tier=thorough cap=1800
+range_harness!(c01_range_step_min1, true, Some(isize::MIN + 1)); // tier=thorough cap=1800
+range_harness!(c01_range_step_p2, true, Some(2)); // tier=thorough cap=1800
+range_harness!(c01_range_step_max, true, Some(isize::MAX)); // tier=thorough cap=1800
+// @verif-end
+
 #[cfg(test)]
 mod playback {
     use super::*;
